@@ -1,4 +1,108 @@
+//! E-CHAN: property C34 — the worker channels of dust-dds (one-shot reply, multi-producer queue, notification)
+//! never lose values or wake-ups and report disconnection exactly when the sending side is gone.
+//!
+//! The three channel sources are compiled *from /repo* (the `#[path]` modules below), against
+//!   * the shims in this file for what they `use` from the dust_dds crate (`crate::infrastructure::error`, `alloc`),
+//!   * the upstream `critical_section` library (vendored under a private package name, see `cs/Cargo.toml`) with the
+//!     counting, preemptible implementation of `critical_section::Impl` in `csimpl.rs`.
+//!
+//! Tier 1 (`det.rs`): generated sequences of atomic channel operations, optionally with operations of *other*
+//! actors injected at the critical-section boundaries inside an operation, judged by the reference model in
+//! `model.rs`. Tier 2 (`threads.rs`): real threads.
+
+extern crate alloc;
+
+/// What the channel sources import from the dust_dds crate root.
+pub mod infrastructure {
+    pub mod error {
+        //! Stand-in for `dust_dds::infrastructure::error` (variant list copied; the oracle only distinguishes
+        //! `Ok` from `Err`, so the exact variant returned by a channel is not judged).
+        use alloc::string::String;
+
+        pub type DdsResult<T> = Result<T, DdsError>;
+
+        #[allow(dead_code)]
+        #[derive(Debug, PartialEq, Eq)]
+        pub enum DdsError {
+            Error(String),
+            Unsupported,
+            BadParameter,
+            PreconditionNotMet(String),
+            OutOfResources,
+            NotEnabled,
+            ImmutablePolicy,
+            InconsistentPolicy,
+            AlreadyDeleted,
+            Timeout,
+            NoData,
+            IllegalOperation,
+        }
+    }
+}
+
+/// The subject under test, rebuilt from /repo's working tree on every `./check`.
+#[allow(dead_code, unused_imports)]
+pub mod channels {
+    #[path = "/repo/dds/src/dcps/channels/mpsc.rs"]
+    pub mod mpsc;
+    #[path = "/repo/dds/src/dcps/channels/notification.rs"]
+    pub mod notification;
+    #[path = "/repo/dds/src/dcps/channels/oneshot.rs"]
+    pub mod oneshot;
+}
+
+mod csimpl;
+mod det;
+mod model;
+mod threads;
+
+use serde_json::json;
+use vcore::{Ctx, Known, Meta, Report};
+
+pub const RULE: &str = "a generated operation sequence is non-trivial when, while the receiver is alive, (a) a poll \
+returned Pending and a later operation of the sequence made the channel ready (send / notify / drop of the last \
+sender) before the receive future was cancelled or dropped, or (b) the last sender handle was dropped; distinctness = \
+hash of the executed (resolved) operation sequence including preemption placement";
+
+pub const ASSUMPTIONS: &[&str] = &[
+    "all shared channel state lives in critical_section::Mutex<RefCell<..>>, reachable only inside critical_section::with; \
+     the only other shared datum is the Arc reference count (atomic). Hence a multi-thread execution is an interleaving of \
+     critical sections; the harness implementation of critical_section counts the sections of every operation and can run \
+     operations of other actors at every section boundary inside an operation (one level deep).",
+    "nested critical sections never occur (checked at run time; a nested section makes the run inconclusive)",
+    "a receive future is not polled again after it returned Ready (Future contract); mpsc receive() futures may be \
+     dropped while pending (as select_future in the worker does)",
+    "wakers used by the harness do not enter critical sections (wake() is called inside the channel's critical section)",
+    "whether MpscSender::send reports Closed after the receiver was dropped is not judged (statement is silent)",
+    "notification is a level-triggered flag: any number of notify() before the receiver completes yields one Ok",
+];
+
 fn main() {
-    eprintln!("engine chan: not built yet");
-    std::process::exit(2);
+    let ctx = Ctx::from_args();
+    if ctx.id != "C34" {
+        eprintln!("engine chan serves C34 only (got {})", ctx.id);
+        std::process::exit(2);
+    }
+    csimpl::install_silent_panic_hook();
+    let known = Known::load(&ctx.id);
+    let mut report = Report::default();
+
+    if let Some(path) = &ctx.replay {
+        let case = vcore::load_replay(path);
+        det::replay(&case, &mut report);
+        vcore::finish(&ctx, Meta { rule: RULE, assumptions: ASSUMPTIONS, nontrivial_floor: 0 }, report);
+    }
+
+    det::run(&ctx, &known, &mut report);
+    threads::run(&ctx, &known, &mut report);
+
+    if csimpl::nested_sections_seen() > 0 {
+        report.inconclusive.push(format!(
+            "{} nested critical sections observed: the atomic-step model of the harness does not apply",
+            csimpl::nested_sections_seen()
+        ));
+    }
+    report.stats.extra.insert("nested_critical_sections".into(), json!(csimpl::nested_sections_seen()));
+    let floor = ctx.pick(20_000, 200_000);
+    vcore::finish(&ctx, Meta { rule: RULE, assumptions: ASSUMPTIONS, nontrivial_floor: floor }, report);
 }
